@@ -119,6 +119,7 @@ type ctx struct {
 	notes    []string
 	log      *os.File
 	extra    map[string]any
+	minTag   bool
 }
 
 func die(code int, format string, a ...any) {
@@ -238,7 +239,9 @@ func (c *ctx) binPath(b string) string { return filepath.Join(c.scratch, "bin", 
 // buildOne builds the driver for one build spec; returns compiler output on failure.
 func (c *ctx) buildOne(b buildSpec, graft bool) (string, error) {
 	tags := append([]string{}, b.Tags...)
-	if graft {
+	if graft && c.minTag {
+		tags = append(tags, "verifmin")
+	} else if graft {
 		tags = append(tags, "verif")
 	}
 	args := []string{"build", "-trimpath"}
@@ -284,7 +287,19 @@ func (c *ctx) buildAll(names []string) error {
 		return nil
 	}
 	if c.spec.Instr != "" {
-		return fmt.Errorf("instrumented build failed:\n%s", strings.Join(c.notes, "\n"))
+		// instrumented checks need the zzverifrt runtime: retry with the minimal observer set (runtime + lattice)
+		if out, err := run(filepath.Join(c.scratch, "voi"), goEnv(), "go", "build", "-tags", "verifmin", "./..."); err != nil {
+			return fmt.Errorf("the working tree does not build: %s", firstLines(out, 20))
+		}
+		c.useGraft = false
+		c.minTag = true
+		for _, r := range doBuild(true) {
+			if r.err != nil {
+				return fmt.Errorf("instrumented build failed even with the minimal observer set:\n%s\n%s", strings.Join(c.notes, "\n"), firstLines(r.out, 20))
+			}
+		}
+		c.notes = append(c.notes, "built with the minimal observer set (verifmin): in-package observers of curve/field/scalar are not in use")
+		return nil
 	}
 	// Does the tree itself build?  If not this is not a verdict about a property.
 	if out, err := run(filepath.Join(c.scratch, "voi"), goEnv(), "go", "build", "./..."); err != nil {
@@ -422,6 +437,39 @@ func check(spec propSpec, tier string, seed int64, replayFile string) int {
 	}
 	var outs []procOut
 	switch {
+	case replayFile != "" && strings.HasSuffix(replayViolation(replayFile).Config, "+situ") && spec.Situ != "":
+		// an in-situ hook violation is replayed by re-running the (deterministic) hooked workload in that configuration
+		base := strings.TrimSuffix(replayViolation(replayFile).Config, "+situ")
+		if _, ok := configs[base]; !ok {
+			base = "avx2"
+		}
+		if err := c.buildAll([]string{configs[base].Build}); err != nil {
+			die(2, "HARNESS-ERROR build: %v", err)
+		}
+		outs = runSitu(c, spec.Situ, []string{base})
+	case replayFile != "" && spec.Special == "c08":
+		v := replayViolation(replayFile)
+		var cs struct {
+			Operation string `json:"operation"`
+			Op        string `json:"op"`
+		}
+		json.Unmarshal(v.Case, &cs)
+		op := cs.Operation
+		if op == "" {
+			op = cs.Op
+		}
+		os.Setenv("VERIF_C08_OPS", op)
+		if strings.HasSuffix(v.Config, "+blocks") {
+			abs, _ := filepath.Abs(replayFile)
+			os.Setenv("VERIF_C08_REPLAY", abs)
+			outs = runC08Cov(c)
+		} else {
+			base := v.Config
+			if _, ok := configs[base]; !ok {
+				base = "avx2"
+			}
+			outs = runC08(c, []string{base})
+		}
 	case replayFile != "" && spec.Special == "c06":
 		abs, _ := filepath.Abs(replayFile)
 		details := map[string][]string{}
@@ -745,6 +793,18 @@ func compareDigests(d map[string]map[string]string) ([]violation, int) {
 	return out, len(ops)
 }
 
+func replayViolation(file string) violation {
+	b, err := os.ReadFile(file)
+	if err != nil {
+		die(2, "replay: %v", err)
+	}
+	var f struct {
+		Violation violation `json:"violation"`
+	}
+	json.Unmarshal(b, &f)
+	return f.Violation
+}
+
 func replayConfig(file string) string {
 	b, err := os.ReadFile(file)
 	if err != nil {
@@ -755,6 +815,9 @@ func replayConfig(file string) string {
 	}
 	json.Unmarshal(b, &f)
 	cn := f.Violation.Config
+	for _, suf := range []string{"+situ", "+blocks"} {
+		cn = strings.TrimSuffix(cn, suf)
+	}
 	if _, ok := configs[cn]; !ok {
 		cn = "avx2"
 	}
